@@ -1,4 +1,5 @@
 import StepupModel.Props.C10
+import StepupModel.Lemmas.MetaAfter
 /-!
 # C11  Exactly the needed steps are executed
 
@@ -103,5 +104,39 @@ theorem default_not_built_under_targets (s : KState) (cfg : KConfig) (n : Node)
 
 /-! Non-vacuity -/
 example : (Need.optional.max .target).rank = 2 := by decide
+
+/-! ## The need of a step after a metadata refresh, in closed form -/
+
+open StepupModel.K.MetaAfter in
+/-- After a refresh (`AfterConsistent`), on an acyclic table: the cached need of an attached step is
+the maximum of the OWN needs (declared need, or TARGET for a producer of a target) of the
+attached steps it transitively feeds (itself included): it dominates each of them and is attained
+by one of them.  "An optional step is built exactly when one of its outputs is required, directly
+or through other optional steps, as input of a step that is built". -/
+theorem implied_need_closed_form {s : KState} {cfg : KConfig} (hac : Acyclic s) (hc : AfterConsistent s cfg)
+    {n : Node} (hn : n ∈ s.nodes) (hs : n.key.kind = .step) (hd : n.detached = false) :
+    (∀ p, Feeds s n p → (ownNeed s cfg p).rank ≤ n.impliedNeed.rank) ∧
+    ∃ p, Feeds s n p ∧ ownNeed s cfg p = n.impliedNeed :=
+  implied_closed_form hac hc hn hs hd
+
+open StepupModel.K.MetaAfter in
+/-- An OPTIONAL step that produces no target and whose attached consumers are all OPTIONAL-implied
+is not dispatched. -/
+theorem unneeded_optional_not_dispatched {s : KState} {cfg : KConfig} {n : Node} (h : AfterLocal s cfg n)
+    (hn : n.need = .optional) (hno : (s.regularOutputs n.key).any cfg.targets.contains = false)
+    (hcons : ∀ m ∈ s.consumerSteps n.key, m.impliedNeed = .optional) : s.eligible cfg n = false :=
+  optional_not_dispatched h hn hno hcons
+
+open StepupModel.K.MetaAfter in
+/-- Every dispatched step has a reason: on a table that obeys the flag discipline, a step that
+`pop_next_job` dispatches is, or transitively feeds, an attached step whose own need (its declared
+need, or TARGET because it produces a requested target) exceeds the threshold of the build. -/
+theorem dispatched_step_has_a_reason (s s' : KState) (cfg : KConfig) (k : Key) (d : Dispatch)
+    (hk : KeysUnique s) (hac : Acyclic s) (hc : CacheInvAfter s cfg)
+    (h : s.popNext cfg (some k) = .ok (s', d)) :
+    ∃ s1 n p, s.updateMeta cfg = .ok s1 ∧ AfterConsistent s1 cfg ∧ n ∈ s1.nodes ∧ n.key = k ∧
+      Feeds s1 n p ∧ cfg.threshold.rank < (ownNeed s1 cfg p).rank ∧
+      (ownNeed s1 cfg p = p.need ∨ (ownNeed s1 cfg p = .target ∧ TargetHit s1 cfg p)) :=
+  popNext_job_has_reason s s' cfg k d hk hac hc h
 
 end StepupModel.Props.C11
